@@ -256,3 +256,72 @@ fn verif_cex_production_limits() {
         }
     }
 }
+
+fn drain_all(consumer: &mut owning_iovec::ConsumingIovec<'_>, out: &mut Vec<u8>) {
+    let n = {
+        let prefix = consumer.stable_prefix();
+        for s in prefix.iter() {
+            let s: &[u8] = s;
+            out.extend_from_slice(s);
+        }
+        prefix.len()
+    };
+    if n > 0 {
+        assert_eq!(consumer.consume(n), n);
+    }
+}
+
+#[test]
+fn verif_cex_public_api_drain_schedules() {
+    // public Encoder / Decoder (production limits), every input over {FD, FE, 41} of length <= 6, every 2-way
+    // split, three drain schedules between the calls: none, peek (obtain the consumer only), drain everything
+    // consumable.  Drained bytes ++ finish() must equal the one-shot encoding; same for the decoder.
+    strings(&[0xfd, 0xfe, 0x41], 6, &mut |x: &[u8]| {
+        let want = ref_enc(x, 252, 64008);
+        for cut in 0..=x.len() {
+            for schedule in 0..3 {
+                let mut drained: Vec<u8> = Vec::new();
+                let mut e = Encoder::new();
+                e.encode_copy(&x[..cut]);
+                match schedule {
+                    0 => {}
+                    1 => {
+                        let _peek = e.consumer().stable_prefix().len();
+                    }
+                    _ => drain_all(&mut e.consumer(), &mut drained),
+                }
+                e.encode(&x[cut..]);
+                if schedule == 2 {
+                    drain_all(&mut e.consumer(), &mut drained);
+                }
+                if !want.starts_with(&drained) {
+                    report("encoder-drained-not-a-prefix", x, &format!("{}|sched{}", cut, schedule), &hex(&drained), &hex(&want));
+                }
+                let rest = e.finish().flatten().expect("no backpatch left");
+                drained.extend_from_slice(&rest);
+                if drained != want {
+                    report("encoder-drain-schedule", x, &format!("{}|sched{}", cut, schedule), &hex(&drained), &hex(&want));
+                }
+                // decoder, same schedules over the encoded stream
+                let y = &want;
+                let ycut = (cut * y.len()) / (x.len() + 1);
+                let mut dd: Vec<u8> = Vec::new();
+                let mut d = Decoder::new();
+                d.decode_copy(&y[..ycut]).expect("valid prefix");
+                match schedule {
+                    0 => {}
+                    1 => {
+                        let _peek = d.consumer().stable_prefix().len();
+                    }
+                    _ => drain_all(&mut d.consumer(), &mut dd),
+                }
+                d.decode(&y[ycut..]).expect("valid stream");
+                let rest = d.finish().expect("complete stream").flatten().expect("flat");
+                dd.extend_from_slice(&rest);
+                if dd != x {
+                    report("decoder-drain-schedule", x, &format!("{}|sched{}", ycut, schedule), &hex(&dd), &hex(x));
+                }
+            }
+        }
+    });
+}
